@@ -3,6 +3,7 @@ package main
 import (
 	"fmt"
 	"go/token"
+	"go/types"
 	"strings"
 
 	"golang.org/x/tools/go/ssa"
@@ -32,14 +33,48 @@ type emitPath struct {
 	Path   Path
 }
 
+// count: the effective number of replies on the path. A WriteHeader followed by a raw body write is one reply
+// (status line + body); an act that failed does not count when something else reports the failure, but a path
+// whose only acts failed has still made its one attempt (a failed write cannot be repaired, only logged).
 func (p emitPath) count() int {
-	n := 0
-	for i := range p.Acts {
-		if !p.Failed[i] {
-			n++
+	n, attempted, pendingHeader := 0, false, false
+	for i, a := range p.Acts {
+		attempted = true
+		if p.Failed[i] {
+			pendingHeader = false
+			continue
 		}
+		if a.Kind == "ResponseWriter.WriteHeader" {
+			if pendingHeader {
+				n++
+			}
+			pendingHeader = true
+			continue
+		}
+		if pendingHeader {
+			pendingHeader = false
+			if !isRawBodyKind(a.Kind) {
+				n++ // the header was a reply of its own
+			}
+		}
+		n++
+	}
+	if pendingHeader {
+		n++
+	}
+	if n == 0 && attempted {
+		n = 1
 	}
 	return n
+}
+
+// isRawBodyKind: reply acts that write body bytes without setting a status of their own.
+func isRawBodyKind(k string) bool {
+	switch k {
+	case "ResponseWriter.Write", "io.Copy", "io.CopyN", "io.WriteString", "fmt.Fprint", "fmt.Fprintf", "fmt.Fprintln", "Template.Execute", "xml.Write", "xml.WriteXMLMarshalled":
+		return true
+	}
+	return false
 }
 
 func (p emitPath) describe(w *World) string {
@@ -62,10 +97,21 @@ type emitSummary struct {
 	Paths    []emitPath
 	Decided  bool
 	Why      string
+	// Res: for a function with a single boolean result (a "handled" flag), the range of effective reply acts on
+	// the paths returning true / false. A caller that branches on the result uses the range of the side it is on.
+	Res map[bool]*[2]int
 }
 
 // actKind classifies call c as a reply act ("" if none), using summaries for module callees.
 func (cx *Ctx) actKind(c ssa.CallInstruction, stack map[*ssa.Function]bool) string {
+	if k := cx.Fx.replyAct(c); k != "" {
+		return k
+	}
+	return cx.actKindOn(c, stack, nil)
+}
+
+// actKindOn: as actKind; when the callee returns a flag and path p branches on it, the summary of that side is used.
+func (cx *Ctx) actKindOn(c ssa.CallInstruction, stack map[*ssa.Function]bool, p *Path) string {
 	if k := cx.Fx.replyAct(c); k != "" {
 		return k
 	}
@@ -77,6 +123,20 @@ func (cx *Ctx) actKind(c ssa.CallInstruction, stack map[*ssa.Function]bool) stri
 		return ""
 	}
 	s := cx.emitSummaryOf(f, stack)
+	if call, ok := c.(*ssa.Call); ok && p != nil && s.Decided && s.Res != nil && !(s.Min == 1 && s.Max == 1) {
+		if side, tested := pathPolarityOf(p, call); tested {
+			if rg := s.Res[side]; rg != nil {
+				switch {
+				case rg[1] == 0:
+					return ""
+				case rg[0] == 1 && rg[1] == 1:
+					return "reply1:" + cx.W.FuncKey(f)
+				default:
+					return fmt.Sprintf("reply%d..%d:%s", rg[0], rg[1], cx.W.FuncKey(f))
+				}
+			}
+		}
+	}
 	if s.Decided && s.Min == 1 && s.Max == 1 {
 		return "reply1:" + cx.W.FuncKey(f)
 	}
@@ -104,6 +164,12 @@ func (cx *Ctx) emitSummaryOf(fn *ssa.Function, stack map[*ssa.Function]bool) *em
 		s.Decided = false
 		s.Why = "too many paths"
 	}
+	boolOnly := false
+	if res := fn.Signature.Results(); res.Len() == 1 {
+		if b, ok := res.At(0).Type().Underlying().(*types.Basic); ok && b.Kind() == types.Bool {
+			boolOnly = true
+		}
+	}
 	for _, p := range paths {
 		ep := cx.emitAlong(p, stack)
 		n := ep.count()
@@ -127,6 +193,27 @@ func (cx *Ctx) emitSummaryOf(fn *ssa.Function, stack map[*ssa.Function]bool) *em
 			s.Max = hi
 		}
 		s.Paths = append(s.Paths, ep)
+		if boolOnly {
+			sides := []bool{true, false}
+			if v, known := pathBoolResult(&p); known {
+				sides = []bool{v}
+			}
+			for _, side := range sides {
+				if s.Res == nil {
+					s.Res = map[bool]*[2]int{}
+				}
+				if rg := s.Res[side]; rg == nil {
+					s.Res[side] = &[2]int{lo, hi}
+				} else {
+					if lo < rg[0] {
+						rg[0] = lo
+					}
+					if hi > rg[1] {
+						rg[1] = hi
+					}
+				}
+			}
+		}
 	}
 	if len(paths) == 0 {
 		s.Min = 0
@@ -146,7 +233,7 @@ func (cx *Ctx) emitAlong(p Path, stack map[*ssa.Function]bool) emitPath {
 		if _, isDefer := in.(*ssa.Defer); isDefer {
 			continue
 		}
-		k := cx.actKind(c, stack)
+		k := cx.actKindOn(c, stack, &p)
 		if k == "" {
 			continue
 		}
@@ -287,4 +374,43 @@ func (cx *Ctx) moduleCallee(c ssa.CallInstruction) *ssa.Function {
 		return nil
 	}
 	return f
+}
+
+// pathBoolResult: the constant a path of a bool-returning function returns (through phis of constants).
+func pathBoolResult(p *Path) (val, known bool) {
+	ret := p.Return()
+	if ret == nil || len(ret.Results) != 1 {
+		return false, false
+	}
+	switch v := ret.Results[0].(type) {
+	case *ssa.Const:
+		if v.Value == nil {
+			return false, false
+		}
+		s := v.Value.ExactString()
+		return s == "true", s == "true" || s == "false"
+	case *ssa.Phi:
+		return p.phiValue(v, 0)
+	}
+	return false, false
+}
+
+// pathPolarityOf: whether path p branches on the boolean result of call, and which way.
+func pathPolarityOf(p *Path, call *ssa.Call) (side, tested bool) {
+	for _, lists := range [][]condPol{p.Conds, p.Raw} {
+		for _, c := range lists {
+			v, pol := c.Cond, c.Pol
+			for {
+				u, ok := v.(*ssa.UnOp)
+				if !ok || u.Op != token.NOT {
+					break
+				}
+				v, pol = u.X, !pol
+			}
+			if v == ssa.Value(call) {
+				return pol, true
+			}
+		}
+	}
+	return false, false
 }
